@@ -215,6 +215,7 @@ struct SScript {
     int cancel_at;    // ms
     int interval;     // 0 none, else period ms, consumed 2 ticks then stop token
     int twice[3];     // sleeper sleeps a second time for the same duration
+    int task_throws;  // the task given to start() ends with an exception (start() must still return, rethrowing it)
 };
 struct SLog {
     struct Ev {
@@ -276,6 +277,7 @@ static cocls::async<void> ticker_stop_while_sleeping(cocls::scheduler &sch, int 
     if (hv) log.evs.push_back({10, 3, 0, 0});
     log.done++;
 }
+struct TaskFailed : std::exception {};
 static cocls::async<void> s_driver(cocls::scheduler &sch, const SScript &sc, SLog &log, int *cres) {
     std::vector<cocls::future<void>*> fs;
     cocls::future<void> f0, f1, f2, fc, ft;
@@ -287,12 +289,13 @@ static cocls::async<void> s_driver(cocls::scheduler &sch, const SScript &sc, SLo
     for (int i = 0; i < sc.n; i++) co_await *arr[i];
     if (sc.cancel_who >= 0) co_await fc;
     if (sc.interval != 0) co_await ft;
+    if (sc.task_throws) throw TaskFailed();
 }
 
 static std::string s_describe(const SScript &s) {
     std::ostringstream o;
     o << "single;n=" << s.n << ";dur=" << s.dur[0] << "," << s.dur[1] << "," << s.dur[2] << ";twice=" << s.twice[0] << "," << s.twice[1] << "," << s.twice[2]
-      << ";cancel=" << s.cancel_who << "@" << s.cancel_at << ";interval=" << s.interval;
+      << ";cancel=" << s.cancel_who << "@" << s.cancel_at << ";interval=" << s.interval << ";task_throws=" << s.task_throws;
     return o.str();
 }
 
@@ -304,7 +307,13 @@ static void run_single(seqx::Runner &R, const SScript &sc) {
         {
             cocls::scheduler sch;
             cocls::future<void> task = s_driver(sch, sc, log, &cres).start();
-            sch.start(task);
+            bool thrown = false;
+            try {
+                sch.start(task);
+            } catch (const TaskFailed &) {
+                thrown = true;
+            }
+            if (thrown != (sc.task_throws != 0)) R.fail("sched/single/start-result", "start(task) %s although the task %s", thrown ? "threw" : "returned normally", sc.task_throws ? "ended with an exception" : "ended normally");
             R.step(log.evs.size() + 1);
         }
         int expect_done = sc.n + (sc.cancel_who >= 0) + (sc.interval != 0);
@@ -386,6 +395,10 @@ static void s_enum(seqx::Runner &R, bool thorough) {
                                     s.cancel_at = ca;
                                     s.interval = iv;
                                     if (R.next_case()) run_single(R, s);
+                                    if (iv == 0 && ca == 0) {
+                                        s.task_throws = 1;
+                                        if (R.next_case()) run_single(R, s);
+                                    }
                                 }
     }
 }
@@ -524,8 +537,8 @@ void seqx_replay(seqx::Runner &R, const std::string &c) {
         run_manual(R, seq);
     } else {
         SScript s{};
-        sscanf(c.c_str(), "single;n=%d;dur=%d,%d,%d;twice=%d,%d,%d;cancel=%d@%d;interval=%d", &s.n, &s.dur[0], &s.dur[1], &s.dur[2], &s.twice[0], &s.twice[1],
-               &s.twice[2], &s.cancel_who, &s.cancel_at, &s.interval);
+        sscanf(c.c_str(), "single;n=%d;dur=%d,%d,%d;twice=%d,%d,%d;cancel=%d@%d;interval=%d;task_throws=%d", &s.n, &s.dur[0], &s.dur[1], &s.dur[2], &s.twice[0],
+               &s.twice[1], &s.twice[2], &s.cancel_who, &s.cancel_at, &s.interval, &s.task_throws);
         run_single(R, s);
     }
 }
